@@ -32,10 +32,16 @@ func (msg *MsgJoinPool) ValidateBasic() error {
 		return ErrInvalidShareAmountOut
 	}
 
+	seen := make(map[string]bool, len(msg.MaxAmountsIn))
 	for _, coin := range msg.MaxAmountsIn {
 		if err = coin.Validate(); err != nil {
 			return err
 		}
+		// each denom may be named once: two coins of one denom would be taken for two assets of the pool by the ratio join
+		if seen[coin.Denom] {
+			return errorsmod.Wrapf(sdkerrors.ErrInvalidCoins, "duplicate denom %s in max amounts in", coin.Denom)
+		}
+		seen[coin.Denom] = true
 	}
 
 	return nil
